@@ -36,6 +36,15 @@ CHECKS = {
             'Serial transactions in one process (tx_lock): statement-level races between scheduler processes are model-level only. '
             'Dispatcher condition variable / thread pool replaced by harness gates; virtual clock; sqlite.',
             'TLA+ model checked by TLC (safety + liveness) + spec-guided and random executions of the real objects validated by TLC', '6.1'),
+    'C17': ('cron', 'model_checking',
+            'CronTrigger.tla models list / advance (delete-on-last or conditional update on the read next_execution_time) / start / crash / '
+            'lagging clock for 2-3 concurrent processors over triggers with pattern, first-time and count combinations; TLC checks '
+            'OncePerOccurrence, OnlyDueOccurrences, CountBound, FirstTimeOnlyOnce, RemainingConsistent, RemovedWhenExhausted, NextMonotone, '
+            'ExactlyOnceAtRest exhaustively and DueEventuallyHandled under fairness. The real process_cron_triggers_v2 is run by gated '
+            'processors along TLC-simulated behaviours and random schedules on real rows (two projects, colliding trigger names); each '
+            'execution is judged by TLC with the same formulas and validated as a model behaviour.',
+            'Whole-minute virtual clock, two cron patterns; keystone trusts and the engine RPC client are fakes; serial transactions; sqlite.',
+            'TLA+ model checked by TLC (safety + liveness) + spec-guided and random executions of the real code validated by TLC', '6.2'),
 }
 
 NOT_YET = 'check not built yet (build in progress; see DESIGN.md section 12)'
